@@ -30,10 +30,17 @@ def gen_case(rng, cid, P, mode=0, ppn=4, ordering=1):
     fc = rand_partition(rng, P, N)
     cols = []
     style = rng.random()
+    shared = None
+    if mode != 0 and rng.random() < 0.5 or rng.random() < 0.15:
+        shared = sorted(rng.sample(range(N), min(N, rng.randint(2, max(2, N // 2)))))
     for p in range(P):
         cand = [c for c in range(N) if not (fc[p] <= c < fc[p + 1])]
         if fc[p + 1] == fc[p] and rng.random() < 0.5: cand = []      # a rank without rows usually has no halo
-        if not cand or style < 0.1: cols.append([]); continue
+        if not cand or style < 0.08: cols.append([]); continue
+        if shared is not None:
+            cs = [c for c in shared if c in set(cand)]
+            extra = rng.sample(cand, min(len(cand), rng.randint(0, 3)))
+            cols.append(sorted(set(cs) | set(extra))); continue
         if style < 0.25:       # all-to-all
             cs = cand
         elif style < 0.4:      # single owner
@@ -107,6 +114,9 @@ def expected(cols, lids):
     E["RSI"] = [[1000 * g + sum(yi(p, j) for (p, j) in contrib.get(g, [])) for g in lids[q]] for q in range(P)]
     E["RM"] = [[max([0] + [yi(p, j) for (p, j) in contrib.get(g, [])]) for g in lids[q]] for q in range(P)]
     E["RL"] = [[max([-1] + [ysel(p, j) for (p, j) in contrib.get(g, [])]) for g in lids[q]] for q in range(P)]
+    yz = lambda p, j: 0 if (cols[p][j] + p + j) % 3 == 0 else -(p + 1) * 10 - j
+    E["RMN"] = [[max([-1000] + [yz(p, j) for (p, j) in contrib.get(g, [])]) for g in lids[q]] for q in range(P)]
+    E["RMND"] = E["RMN"]
     E["RB"] = [[v for g in lids[q] for v in (sum(yi(p, j) for (p, j) in contrib.get(g, [])),
                                                  sum(Fraction(yi(p, j), 2) for (p, j) in contrib.get(g, [])))] for q in range(P)]
     return E
